@@ -179,7 +179,7 @@ func TestC07(t *testing.T) {
 	seed := vh.Seed()
 	r := vh.Sub(seed, "c07")
 	keyRaw := r.Bytes(32)
-	key := frame.NewV2Key(keyRaw)
+	key := mkKey(keyRaw)
 	frames := map[uint64][]byte{}
 
 	alpha := []uint64{0, 1, 5, 999999, 1000000, 1000001, 1999999, 2000000, 2000001, 1 << 32, (1 << 48) - 1000001, (1 << 48) - 1,
